@@ -632,7 +632,10 @@ pub fn apply(s: &mut Stream, name: &'static str, rng: &mut Rng) -> Option<Applie
                 t.bc = (t.bc + 1 + rng.below(100) as u16) % 3564;
                 code = "E445";
             } else {
-                t.trigger_type ^= 1 << rng.below(12);
+                // (a physics trigger that is not internal: in 1 of 3 it is the PhT bit itself that the TDH loses - the
+                // comparison must not be gated on the very field it checks)
+                let bit = if !t.internal && (t.trigger_type >> 4) & 1 == 1 && rng.chance(1, 3) { 4 } else { rng.below(12) };
+                t.trigger_type ^= 1 << bit;
                 if t.trigger_type == 0 && !t.internal {
                     t.trigger_type = 0x800;
                 }
